@@ -19,7 +19,9 @@ IMPORTS = ("(import (only (chibi io) make-custom-binary-input-port) (only (chibi
            "(import (only (chibi string) string-join) (prefix (only (srfi 130) string-join) s130:) (only (chibi) string-concatenate))"
            "(import (only (chibi io) utf8->string!) (only (chibi) string-cursor-start string-cursor-end "
            "string-cursor-next string-cursor-prev string-cursor-ref string-cursor<? string-cursor>? "
-           "string-cursor->index string-index->cursor))")
+           "string-cursor->index string-index->cursor string-cursor? substring-cursor %write-string))"
+           "(import (only (chibi io) read-string!) (prefix (only (srfi 130) string-index string-index-right string-count string-fold "
+           "string-for-each-cursor string-copy/cursors string->list/cursors string-take string-drop string-take-right string-drop-right) s130:))")
 
 # code points at the case-split boundaries of the proofs (width classes, surrogate gap, lead-byte classes)
 BOUNDARY = [0x1, 0x41, 0x61, 0x7E, 0x7F, 0x80, 0x81, 0xBF, 0xC0, 0xFF, 0x100, 0x3BB, 0x7FE, 0x7FF, 0x800, 0x801, 0xFFF, 0x1000,
@@ -1100,6 +1102,318 @@ def check_ports(ctx, exe, d, n_big, n_custom, n_write):
         pass
 
 
+# ------------------------------------------------------------------------------------------ optional range arguments (round 3)
+def sobs(cs):
+    return "%s %s %x" % (hx(cs), hx(utf8(cs)), len(cs))
+
+
+def range_strings(rng, n):
+    """strings whose characters before, at and after every possible range boundary are multi-byte (all widths), plus mixed,
+    ASCII-then-multi-byte, multi-byte-then-ASCII and (control) pure ASCII ones"""
+    MB = [c for w in (2, 3, 4) for c in BY_WIDTH[w]]
+    out = []
+    for k in range(n):
+        L = rng.choice([3, 4, 5, 6, 8])
+        pat = ["mb", "mb", "mixed", "ascii-mb", "mb-ascii", "mb", "mixed", "ascii"][k % 8]
+        if pat == "mb":
+            cs = [rng.choice(BY_WIDTH[rng.choice([2, 3, 4])]) if rng.random() < 0.6 else rand_cp(rng) for _ in range(L)]
+            cs = [c if c >= 0x80 else rng.choice(MB) for c in cs]
+        elif pat == "mixed":
+            cs = [rand_cp(rng) for _ in range(L)]
+        elif pat == "ascii-mb":
+            h = rng.randrange(1, L)
+            cs = [rng.randrange(0x21, 0x7F) for _ in range(h)] + [rng.choice(MB) for _ in range(L - h)]
+        elif pat == "mb-ascii":
+            h = rng.randrange(1, L)
+            cs = [rng.choice(MB) for _ in range(h)] + [rng.randrange(0x21, 0x7F) for _ in range(L - h)]
+        else:
+            cs = [rng.randrange(0x21, 0x7F) for _ in range(L)]
+        out.append([c for c in cs if c not in (0x22, 0x5C)] or [0x3BB, 0x41, 0x20AC])
+    return out
+
+
+def ranges_of(rng, L):
+    """{start omitted, 0, 1, middle, len} x {end omitted, start, middle, len}"""
+    mid = rng.randrange(2, L) if L >= 3 else min(1, L)
+    out = [()]
+    for a in (0, 1, mid, L):
+        if a > L:
+            continue
+        for e in (None, a, rng.randrange(a, L + 1), L):
+            out.append((a,) if e is None else (a, e))
+    seen, res = set(), []
+    for r in out:
+        if r not in seen:
+            seen.add(r)
+            res.append(r)
+    return res
+
+
+def range_class(L, r):
+    def cl(x, first):
+        if x == 0: return "0"
+        if x == L: return "len"
+        if x == 1: return "1"
+        return "mid"
+    if not r:
+        return "start-omitted"
+    return "start-%s:end-%s" % (cl(r[0], True), "omitted" if len(r) < 2 else ("start" if r[1] == r[0] else cl(r[1], False)))
+
+
+def str_spec(rng, cs, mutable=False):
+    """scheme text of a string argument for the range harness"""
+    kinds = ["list", "shared", "copy"] + ([] if mutable else ["lit"])
+    k = rng.choice(kinds)
+    if k == "lit":
+        return scm_string(cs)
+    return "(%s %s)" % (k, " ".join(map(str, cs)))
+
+
+def sl(l):
+    return "(" + " ".join(str(x) for x in l) + ")"
+
+
+RANGE_NAMES = {"ws": "write-string", "wo": "%write-string", "di": "display", "sc": "string-copy", "ss": "substring", "sl": "string->list",
+               "sv": "string->vector", "vs": "vector->string", "su": "string->utf8", "us": "utf8->string", "sf": "string-fill!",
+               "sy": "string-copy!", "sm": "string-map", "se": "string-for-each", "rs": "read-string", "rb": "read-string!",
+               "cu": "substring-cursor", "cc": "string-copy/cursors", "cl": "string->list/cursors",
+               "ix": "string-index", "rx": "string-index-right", "ct": "string-count", "fo": "string-fold", "fc": "string-for-each-cursor",
+               "tk": "string-take/drop", "cm": "string-comparison"}
+EURO = [0xE2, 0x82, 0xAC]
+RANGE_MODEL = True
+
+
+def gen_range_cases(ctx, n_strings, n_big):
+    """-> list of (op, scheme case text, expected field, signature suffix, nontrivial, model request or None)"""
+    rng = ctx.rng
+    cases = []
+
+    def add(op, text, exp, cls, cs, model=None):
+        cases.append((op, text, exp, cls, any(c >= 0x80 for c in cs), model))
+
+    for cs in range_strings(rng, n_strings):
+        L = len(cs)
+        b = utf8(cs)
+        for r in ranges_of(rng, L):
+            a = r[0] if len(r) > 0 else 0
+            e = r[1] if len(r) > 1 else L
+            cl = range_class(L, r)
+            sub = cs[a:e]
+            # write-string on a string port, a file-descriptor port and a FILE* port: the bytes that arrive
+            for pk in ("string", "fd", "file"):
+                pre = [rng.choice([0x3BB, 0x41, 0x1F600])] * rng.choice([0, 1, 2])
+                sp = str_spec(rng, cs)
+                add("ws", "(ws %s %s %s %s)" % (pk, sp, sl(r), sl(pre)), "b:" + hx(utf8(pre) + utf8(sub) + EURO), cl + ":" + pk, cs,
+                    model=("wrange %x %s %s %s %s" % (PORT_BUF, hx(utf8(pre)), hx(cs), zhex(a) if r else "_", zhex(e) if len(r) > 1 else "_")) if pk == "string" else None)
+            for op in ("sc", "ss", "cu", "cc"):
+                if op in ("ss", "cu") and not r:
+                    continue
+                add(op, "(%s %s %s)" % (op, str_spec(rng, cs), sl(r)), sobs(sub), cl, cs)
+            for op in ("sl", "sv", "cl"):
+                add(op, "(%s %s %s)" % (op, str_spec(rng, cs), sl(r)), hx(sub), cl, cs)
+            add("vs", "(vs (list %s) %s)" % (" ".join(map(str, cs)), sl(r)), sobs(sub), cl, cs)
+            add("su", "(su %s %s)" % (str_spec(rng, cs), sl(r)), hx(utf8(sub)), cl, cs)
+            # utf8->string takes BYTE offsets: the offsets of the characters a and e inside a bytevector with garbage around
+            pre = [rng.randrange(256) for _ in range(rng.choice([1, 2, 3]))] if r else []
+            post = [rng.randrange(256) for _ in range(rng.choice([1, 2]))] if len(r) > 1 else []
+            br = tuple([len(pre) + len(utf8(cs[:a]))] + ([len(pre) + len(utf8(cs[:e]))] if len(r) > 1 else [])) if r else ()
+            add("us", "(us %s %s %s %s)" % (sl(pre), sl(cs), sl(post), sl(br)), sobs(sub), cl, cs)
+            c = rand_cp(rng)
+            add("sf", "(sf %s %d %s)" % (str_spec(rng, cs, True), c, sl(r)), sobs(cs[:a] + [c] * (e - a) + cs[e:]), cl, cs + [c],
+                model="rfill %s %x %s %s" % (hx(cs), c, zhex(a) if r else "_", zhex(e) if len(r) > 1 else "_"))
+            # string-copy!: another target, and the string itself (overlapping, both directions)
+            n = e - a
+            T = [rand_cp(rng) for _ in range(n + rng.choice([0, 1, 3]))]
+            at = rng.randrange(0, len(T) - n + 1)
+            add("sy", "(sy %s %d %s %s)" % (str_spec(rng, T, True), at, str_spec(rng, cs), sl(r)), sobs(T[:at] + sub + T[at + n:]), cl + ":other", cs + T,
+                model="rcopy %s %x %s %s %s" % (hx(T), at, hx(cs), zhex(a) if r else "_", zhex(e) if len(r) > 1 else "_"))
+            at = rng.randrange(0, L - n + 1)
+            add("sy", "(sy %s %d #t %s)" % (str_spec(rng, cs, True), at, sl(r)), sobs(cs[:at] + sub + cs[at + n:]),
+                cl + (":overlap-left" if at <= a else ":overlap-right"), cs,
+                model="rcopy = %x %s %s %s" % (at, hx(cs), zhex(a) if r else "_", zhex(e) if len(r) > 1 else "_"))
+            for curs in (0, 1):
+                for pred in ("hi", "lo", rng.choice(cs)):
+                    hit = (lambda c: c > 127) if pred == "hi" else (lambda c: c < 128) if pred == "lo" else (lambda c, p=pred: c == p)
+                    idx = [i for i in range(a, e) if hit(cs[i])]
+                    tail = "%s %s %s %s" % (str_spec(rng, cs), pred, sl(r), "#t" if curs else "#f")
+                    cc = cl + (":cursors" if curs else ":indices")
+                    add("ix", "(ix %s)" % tail, "%x" % (idx[0] if idx else e), cc, cs)
+                    add("rx", "(rx %s)" % tail, "%x" % (idx[-1] + 1 if idx else a), cc, cs)
+                    if pred == "hi":
+                        add("ct", "(ct %s)" % tail, "%x" % len(idx), cc, cs)
+                        add("fo", "(fo %s)" % tail, hx(sub), cc, cs)
+                        add("fc", "(fc %s)" % tail, hx(sub), cc, cs)
+        # the opcode itself: every BYTE count 0..size (most of them not on a character boundary), #t, and the two just outside
+        for pk in ("string", "fd"):
+            for cnt in list(range(0, len(b) + 1)) + ["#t", -1, len(b) + 1]:
+                if cnt == "#t":
+                    exp = "b:" + hx([0xCE, 0xBB] + b + EURO)
+                elif cnt < 0 or cnt > len(b):
+                    exp = "E"
+                else:
+                    exp = "b:" + hx([0xCE, 0xBB] + b[:cnt] + EURO)
+                add("wo", "(wo %s %s %s)" % (pk, str_spec(rng, cs), cnt), exp, "count-" + ("all" if cnt == "#t" else "outside" if exp == "E" else
+                    "char-boundary" if cnt in [len(utf8(cs[:k])) for k in range(L + 1)] else "inside-char") + ":" + pk, cs,
+                    model=("wstr %x ce,bb %s %s" % (PORT_BUF, hx(cs), "_" if cnt == "#t" else zhex(cnt))) if pk == "string" else None)
+        for pk in ("string", "fd", "file"):
+            add("di", "(di %s %s)" % (pk, str_spec(rng, cs)), "b:" + hx([0xCE, 0xBB] + b + b + EURO), pk, cs)
+        add("ws", "(ws cur %s () ())" % str_spec(rng, cs), "b:" + hx(b + EURO), "port-omitted", cs)
+        # several strings of different lengths: the shortest decides
+        for k in (2, 3):
+            ls = [cs] + [[rand_cp(rng) for _ in range(rng.choice([L, L - 1, L + 2, 1, 0]))] for _ in range(k - 1)]
+            rng.shuffle(ls)
+            cols = list(zip(*ls))
+            args = " ".join(str_spec(rng, x) for x in ls)
+            if all(is_scalar(max(col)) for col in cols):
+                add("sm", "(sm %s)" % args, sobs([max(col) for col in cols]), "n%d" % k, cs)
+            add("se", "(se %s)" % args, hx([sum(col) for col in cols]), "n%d" % k, cs)
+        # read-string / read-string! on every kind of input port: k = 0, 1, middle, len, len + 1
+        for k in sorted(set([0, 1, rng.randrange(1, L + 1), L, L + 1])):
+            for pk in ("string", "fd", "file", "bytevector", "custom"):
+                sched = [rng.choice([1, 1, 2, 3, 5]) for _ in range(len(b))] if pk == "custom" else []
+                if k == 0:
+                    exp = sobs([])
+                else:
+                    exp = sobs(cs[:k])
+                add("rs", "(rs %s %s %s %d)" % (pk, sl(cs), sl(sched), k), exp + " / " + hx(cs[k:]), "k-%s:%s" % ("0" if k == 0 else "len+1" if k > L else "len" if k == L else "inside", pk), cs)
+                T = [rand_cp(rng) for _ in range(k + rng.choice([0, 2]))]
+                cnt = min(k, L)
+                add("rb", "(rb %s %s %s %s %d)" % (pk, sl(cs), sl(sched), str_spec(rng, T, True), k), "%x %s / %s" % (cnt, sobs(cs[:cnt] + T[cnt:]), hx(cs[cnt:])),
+                    "k-%s:%s" % ("0" if k == 0 else "len+1" if k > L else "len" if k == L else "inside", pk), cs + T)
+        for which in range(4):
+            for n in sorted(set([0, 1, rng.randrange(0, L + 1), L])):
+                exp = [cs[:n], cs[n:], cs[L - n:], cs[:L - n]][which]
+                add("tk", "(tk %d %s %d)" % (which, str_spec(rng, cs), n), sobs(exp), "%s-%s" % (["take", "drop", "take-right", "drop-right"][which], "0" if n == 0 else "len" if n == L else "inside"), cs)
+    # comparison predicates: strings that first differ at a character pair straddling a width boundary (byte order must equal
+    # code point order: U+E000..U+FFFF sort before U+10000.. although UTF-16 would say otherwise), one a prefix of the
+    # other, equal, and with U+0000 inside the common prefix (a C string function would stop there)
+    UNCASED = [0x20AC, 0x2192, 0x4E2D, 0x9EEC, 0x1F600, 0xFFFD, 0x0, 0x7F, 0x80, 0x31, 0x20]
+    PAIRS = [(0x7F, 0x80), (0x7FF, 0x800), (0xFFFF, 0x10000), (0xE000, 0x10000), (0xFFFD, 0x1F600), (0x0, 0x1), (0x41, 0x61), (0x61, 0x42),
+             (0xD7FF, 0xE000), (0x80, 0x7FF), (0x10FFFF, 0xFFFF), (0x5A, 0x61)]
+    fold = lambda l: [c + 32 if 0x41 <= c <= 0x5A else c for c in l]
+    tf = lambda x: "T" if x else "F"
+    for k in range(6 * n_strings):
+        pre = [rng.choice(UNCASED + [0x41, 0x62, 0x5A]) for _ in range(rng.choice([0, 1, 2, 4]))]
+        if rng.random() < 0.4:
+            pre = pre + [0]
+        x, y = rng.choice(PAIRS)
+        if rng.random() < 0.5:
+            x, y = y, x
+        t1 = [rng.choice(UNCASED) for _ in range(rng.choice([0, 1, 3]))]
+        t2 = [rng.choice(UNCASED) for _ in range(rng.choice([0, 1, 3]))]
+        form = rng.choice(["diff", "diff", "diff", "prefix", "equal", "case"])
+        if form == "diff": a, b = pre + [x] + t1, pre + [y] + t2
+        elif form == "prefix": a, b = pre, pre + [y] + t2
+        elif form == "equal": a, b = pre + [x], pre + [x]
+        else: a, b = pre + [0x41, 0x7A] + t1, pre + [0x61, 0x5A] + t1
+        ls = [a, b] if rng.random() < 0.7 else [a, b, rng.choice([a, b, b + [0x3BB], pre])]
+        if rng.random() < 0.5:
+            ls[0], ls[1] = ls[1], ls[0]
+        chain = lambda f, L: all(f(L[i], L[i + 1]) for i in range(len(L) - 1))
+        fl = [fold(l) for l in ls]
+        exp = (tf(chain(lambda p, q: p == q, ls)) + tf(chain(lambda p, q: p < q, ls)) + tf(chain(lambda p, q: p > q, ls)) +
+               tf(chain(lambda p, q: p <= q, ls)) + tf(chain(lambda p, q: p >= q, ls)) +
+               tf(chain(lambda p, q: p == q, fl)) + tf(chain(lambda p, q: p < q, fl)) + tf(chain(lambda p, q: p > q, fl)) + tf(ls[0] == ls[1]))
+        allc = [c for l in ls for c in l]
+        add("cm", "(cm %s)" % " ".join(str_spec(rng, l) if l else "(list)" for l in ls), exp,
+            "%s%s:n%d" % (form, ":nul" if 0 in pre else "", len(ls)), allc)
+        if len(ls) == 2:
+            sgn = (ls[0] > ls[1]) - (ls[0] < ls[1])
+            cases.append(("cmx", None, str(sgn), "", True, "cmp %s %s" % (hx(ls[0]), hx(ls[1]))))
+    # long strings: the written slice crosses the 4096-byte output buffer, a multi-byte character cut by it
+    for k in range(n_big):
+        cs = [c for c in filler(rng, rng.choice([5000, 8200, 9000]), 10 ** 9) if c not in (0x22, 0x5C)]
+        # make the neighbourhood of the buffer end multi-byte
+        L = len(cs)
+        pre = filler(rng, rng.randrange(0, 9), 10 ** 9)
+        r = rng.choice([(0,), (0, L), (0, L - 1), (1, L), (0, L // 2 + 600), (3, L - 2)])
+        acc = len(utf8(pre))
+        for j in range(r[0], L):
+            if PORT_BUF - 8 <= acc <= PORT_BUF + 2 or 2 * PORT_BUF - 8 <= acc <= 2 * PORT_BUF + 2:
+                cs[j] = rng.choice(BY_WIDTH[rng.choice([2, 3, 4])])
+            acc += width(cs[j])
+        a, e = r[0], (r[1] if len(r) > 1 else L)
+        pk = rng.choice(["string", "fd", "file"])
+        add("ws", "(ws %s %s %s %s)" % (pk, "(list %s)" % " ".join(map(str, cs)), sl(r), sl(pre)), "b:" + hx(utf8(pre) + utf8(cs[a:e]) + EURO),
+            "%s:%s:crosses-buffer" % (range_class(L, r), pk), cs)
+    return cases
+
+
+def check_ranges(ctx, exe, d, n_strings, n_big):
+    cases = gen_range_cases(ctx, n_strings, n_big)
+    model_only = [c for c in cases if c[1] is None]
+    cases = [c for c in cases if c[1] is not None]
+    if model_only and RANGE_MODEL:
+        for c, m in zip(model_only, ctx.run_model(exe, [c[5] for c in model_only])):
+            ctx.count(1, key=("range-model", c[5]), nontrivial=True)
+            if m != c[2]:
+                ctx.broken("correspondence:range-model-vs-spec", "%s: extracted model %r, SPEC %r" % (c[5][:200], m, c[2]))
+    pdir = os.path.join(B.SCRATCH, "c12-ranges")
+    os.makedirs(pdir, exist_ok=True)
+    path = os.path.join(pdir, "io.bin")
+    prelude = open(os.path.join(HARNESS, "c12_hist.scm")).read()
+    per = 40
+    groups = [cases[i:i + per] for i in range(0, len(cases), per)]
+    exprs = ["(c12-range-run \"%s\" '(%s))" % (path, " ".join(c[1] for c in g)) for g in groups]
+    res = scm.run_cases(d, exprs, prelude_extra=prelude, imports=IMPORTS, chunk=25, timeout=120)
+    with_model = [c for c in cases if c[5] is not None and RANGE_MODEL]
+    mo = ctx.run_model(exe, [c[5] for c in with_model]) if with_model else []
+    mo = dict(zip([id(c) for c in with_model], mo))
+    reported, nb = {}, 0
+    for g, e, r in zip(groups, exprs, res):
+        got = parse_fields(r) if r and not r.startswith(("TIMEOUT", "CRASH", "ERR")) else None
+        if got is not None and len(got) != len(g):
+            got = None
+        for k, c in enumerate(g):
+            op, text, exp, cls, nontriv, mreq = c
+            ctx.count(1, key=("range", text), nontrivial=nontriv)
+            ctx.cov["traces_validated_against_impl"] += 1
+            m = mo.get(id(c))
+            if m is not None and m != exp:
+                nb += 1
+                if nb <= 5:
+                    ctx.broken("correspondence:range-model-vs-spec", "%s: extracted model %r, SPEC %r" % (mreq[:200], m[:200], exp[:200]))
+            if got is None:
+                continue
+            if got[k] != exp:
+                sig = "range:%s:%s" % (RANGE_NAMES[op], cls)
+                reported[sig] = reported.get(sig, 0) + 1
+                if reported[sig] > 2 or len(reported) > 40:
+                    continue
+                txt = "(c12-range-run \"%s\" '(%s))" % (os.path.join(B.SCRATCH, "c12-range-replay.bin"), text)
+                wf = ""
+                if exp.startswith("b:") and got[k].startswith("b:"):
+                    try:
+                        bytes(unhx(got[k][2:])).decode("utf-8")
+                    except UnicodeDecodeError as ex:
+                        wf = "  (the bytes written are not well-formed UTF-8: %s)" % ex.reason
+                ctx.violation(sig, input=txt if len(txt) < 3000 else txt[:3000] + " ...", step=0, expected=exp if len(exp) < 600 else exp[:600] + "…",
+                              observed=(got[k] if len(got[k]) < 600 else got[k][:600] + "…") + wf, model=m,
+                              replay="./check C12 --replay <this file>   # or: chibi-scheme with vlib/scm.py PRELUDE + harness/c12_hist.scm, then " + txt[:300])
+        if got is None:
+            # the whole group died: find the case by running them one by one
+            single = scm.run_cases(d, ["(c12-range-run \"%s\" '(%s))" % (path, c[1]) for c in g], prelude_extra=prelude, imports=IMPORTS, chunk=1, timeout=30)
+            found = False
+            for c, r1 in zip(g, single):
+                f1 = parse_fields(r1) if r1 and not r1.startswith(("TIMEOUT", "CRASH", "ERR")) else None
+                if f1 is None or f1[0] != c[2]:
+                    found = True
+                    sig = ("crash-or-hang:range:%s" % RANGE_NAMES[c[0]]) if f1 is None else "range:%s:%s" % (RANGE_NAMES[c[0]], c[3])
+                    reported[sig] = reported.get(sig, 0) + 1
+                    if reported[sig] <= 2:
+                        ctx.violation(sig, input="(c12-range-run \"%s\" '(%s))" % (os.path.join(B.SCRATCH, "c12-range-replay.bin"), c[1][:3000]), step=0,
+                                      expected=c[2][:600], observed=str(r1)[:300] if f1 is None else f1[0][:600], replay="./check C12 --replay <this file>")
+            if not found:
+                ctx.violation("crash-or-hang:range:group", input=e[:3000], expected="one field per case", observed=str(r)[:300], replay="./check C12 --replay <this file>")
+    if cases:
+        ctx.sample(dict(kind="range", request=exprs[0][:400], impl=str(res[0])[:400]))
+    try:
+        import shutil
+        shutil.rmtree(pdir)
+    except OSError:
+        pass
+
+
 # ------------------------------------------------------------------------------------------ driver
 def run(ctx):
     ctx.cov["rule"] = (
@@ -1109,8 +1423,12 @@ def run(ctx):
         "boundaries -1/0/len-1/len/len+1 for index->cursor, ref, substring; outer: operation histories (<= 40 steps) over strings mixing "
         "1/2/3/4-byte scalars created by list->string, string, utf8->string, utf8->string! (shared, offset != 0), string ports, literals, with "
         "string-set!/substring/append/copy/make-string/fill!/copy! (aliased)/ports/cursors/comparisons, observed after every step as "
-        "(string->list, string->utf8, string-length); a case is distinct by its full request/history and non-trivial when a non-ASCII "
-        "scalar is involved")
+        "(string->list, string->utf8, string-length); optional range arguments: every combination {start omitted, 0, 1, middle, len} x {end "
+        "omitted, start, middle, len} for write-string (string / fd / FILE* ports, bytes that reach the port), string-copy, substring(-cursor), "
+        "string->list/vector, vector->string, string->utf8, utf8->string, string-fill!, string-copy! (aliased, both overlap directions), srfi 130 "
+        "index/count/fold with index and cursor ranges, read-string / read-string! counts on five port kinds, every byte count of the "
+        "%write-string opcode, comparison predicates on strings differing at a width boundary / by a prefix / after U+0000; "
+        "a case is distinct by its full request/history and non-trivial when a non-ASCII scalar is involved")
     from gen import c12_leaf
     d = ctx.build("default")
     sigs = c12_leaf.regen(ctx, d)
@@ -1125,6 +1443,7 @@ def run(ctx):
     check_outer(ctx, exe, d, 500 if not ctx.thorough else 30000, 900 if not ctx.thorough else 70000)
     check_sweep(ctx, d)
     check_ports(ctx, exe, d, *( (60, 500, 24) if not ctx.thorough else (1500, 30000, 400) ))
+    check_ranges(ctx, exe, d, *( (10, 8) if not ctx.thorough else (250, 100) ))
     ctx.assume("configuration: SEXP_USE_UTF8_STRINGS=1, mutable strings, no string index table, no string-ref cache (the defaults)")
     ctx.assume("strings sharing one byte store with another live string or bytevector (only utf8->string! creates them) are outside the "
                "history theorem; the aliasing theorem says exactly when a store is written in place")
